@@ -16,18 +16,25 @@ pub struct Case {
     pub order: Vec<u16>,
     pub edits: Vec<Edit>,
     pub receive_once: bool,
+    /// the writer enables its MD5 check (older saved cases: on)
+    #[serde(default = "yes")]
+    pub md5_check: bool,
+}
+
+fn yes() -> bool {
+    true
 }
 
 fn map_idx(i: u16, len: usize) -> usize {
     ((i as usize) * len) >> 16
 }
 
-pub fn check(ls: &LabeledSession, order: &[usize], edits: &[Edit], receive_once: bool) -> CaseResult {
+pub fn check(ls: &LabeledSession, order: &[usize], edits: &[Edit], receive_once: bool, md5_check: bool) -> CaseResult {
     let mut info = CaseInfo::new();
     // payload edits only when every object announces an MD5 and the writer checks it
     let md5_all = ls.objs.iter().all(|o| o.md5);
-    let edits: &[Edit] = if md5_all { edits } else { &[] };
-    let rx = RxSpec { receive_once, md5_check: true, ..RxSpec::default_once() };
+    let edits: &[Edit] = if md5_all && md5_check { edits } else { &[] };
+    let rx = RxSpec { receive_once, md5_check, ..RxSpec::default_once() };
     let d = deliver(ls, order, edits, &rx, Faults::none(), true)?;
     if let Some(e) = d.protocol_errors.first() {
         return Err(format!("an object instance was reported both complete and failed / out of protocol: {}", e));
@@ -63,6 +70,10 @@ pub fn check(ls: &LabeledSession, order: &[usize], edits: &[Edit], receive_once:
     info.nt((!in_order || d.edited_object_payload) && terminal);
     info.label_if(d.edited_object_payload, "payload edited");
     info.label_if(!in_order, "reordered/duplicated");
+    info.label_if(!md5_check || !md5_all, "no MD5 protection (not announced or not checked)");
+    if ls.spec.objs.iter().any(|o| o.cenc != 0 && !o.inband_cenc && o.oti.as_ref().map(|t| t.inband_fti).unwrap_or(ls.spec.sender.oti.inband_fti)) {
+        info.label("content encoding announced by the FDT only, FTI in-band");
+    }
     info.label_if(d.writers_after_drop.iter().any(|w| w.failed()), "a writer failed");
     Ok(info)
 }
@@ -73,7 +84,7 @@ pub fn run_case(c: &Case) -> CaseResult {
         return Ok(CaseInfo::excluded("domain: empty session"));
     }
     let order: Vec<usize> = c.order.iter().map(|i| map_idx(*i, ls.packets.len())).collect();
-    check(&ls, &order, &c.edits, c.receive_once)
+    check(&ls, &order, &c.edits, c.receive_once, c.md5_check)
 }
 
 fn edit_strategy() -> BoxedStrategy<Edit> {
@@ -120,8 +131,8 @@ fn order_strategy() -> BoxedStrategy<Vec<u16>> {
 }
 
 pub fn case_strategy(o: SmallOpts) -> BoxedStrategy<Case> {
-    (small_session_strategy(o), order_strategy(), proptest::collection::vec(edit_strategy(), 0..4), any::<bool>())
-        .prop_map(|(sess, order, edits, receive_once)| Case { sess, order, edits, receive_once })
+    (small_session_strategy(o), order_strategy(), proptest::collection::vec(edit_strategy(), 0..4), any::<bool>(), any::<bool>())
+        .prop_map(|(sess, order, edits, receive_once, md5_check)| Case { sess, order, edits, receive_once, md5_check })
         .boxed()
 }
 
@@ -183,7 +194,7 @@ pub fn run(eng: &mut Engine) {
             *st.labels.entry(format!("|P|={}", n)).or_insert(0) += 1;
             let mut fail: Option<(Value, String)> = None;
             let r = permutations(n, |perm| {
-                match check(&ls, perm, &[], true) {
+                match check(&ls, perm, &[], true, c % 2 == 0) {
                     Ok(info) => {
                         st.evaluations += 1;
                         if info.nontrivial {
@@ -196,7 +207,7 @@ pub fn run(eng: &mut Engine) {
                     }
                     Err(m) => {
                         let order: Vec<u16> = perm.iter().map(|i| ((*i * 65536 + 65535) / n).min(65535) as u16).collect();
-                        fail = Some((json!(Case { sess: sess.clone(), order, edits: vec![], receive_once: true }), m.clone()));
+                        fail = Some((json!(Case { sess: sess.clone(), order, edits: vec![], receive_once: true, md5_check: c % 2 == 0 }), m.clone()));
                         Err(m)
                     }
                 }
